@@ -665,7 +665,8 @@ func TestVerif(t *testing.T) {
 		sc := sc
 		weight := 1
 		if sc.bound > 1 {
-			weight = 8
+			// thorough tier: the hand-written histories at bound 2 get about half of the time, the generated ones the rest
+			weight = 300
 		}
 		scs = append(scs, vexplore.Scenario{Name: "file:" + sc.name, Bound: sc.bound, Horizon: 30 * time.Second, MaxSteps: 200000, Weight: weight,
 			Body: func() { body1(sc) }, Check: func(x *vsched.Exec) []vexplore.Finding { return check(sc, x) }, Observation: observation})
